@@ -184,6 +184,11 @@ pub fn big_objects(col: &Collector) -> CheckResult {
     let mut k_all = cc.generate_user_secret_key(&mut msk, &AccessPolicy::Broadcast).map_err(e)?;
     let k_top = cc.generate_user_secret_key(&mut msk, &AccessPolicy::Term(qa("SEC", &all_sec[5]))).map_err(e)?;
     let k_narrow = cc.generate_user_secret_key(&mut msk, &pol(&crate::gen::RPolicy::single(&[("SEC", &all_sec[1]), ("DPT", "d0"), ("CTR", "c1")]))).map_err(e)?;
+    // more than 127 registered users (the user count needs two LEB128 bytes)
+    let tiny = pol(&crate::gen::RPolicy::single(&[("SEC", &all_sec[0]), ("DPT", "d1"), (d2.as_str(), spec.dims[2].attrs[0].0.as_str()), ("CTR", "c0")]));
+    for _ in 0..130 {
+        cc.generate_user_secret_key(&mut msk, &tiny).map_err(e)?;
+    }
     // an encapsulation with 6*5*4*2 = 240 targets, and a small one for the long-named attribute
     let (s_many, x_many) = cc.encaps(&mpk, &pol(&every)).map_err(e)?;
     let (s_long, x_long) = cc.encaps(&mpk, &AccessPolicy::Term(qa("SEC", &all_sec[1]))).map_err(e)?;
@@ -197,6 +202,9 @@ pub fn big_objects(col: &Collector) -> CheckResult {
     // strict round-trips + codec
     let mb = rt(&msk, "MasterSecretKey")?;
     let wm = WMsk::decode(&mb).map_err(|e| Fail::new("codec-cannot-decode-msk", e))?;
+    if wm.users.len() < 133 {
+        return Err(Fail::new("big-msk-users", format!("{} users registered, expected >= 133", wm.users.len())));
+    }
     if wm.encode() != mb || wm.rights.len() != 630 {
         return Err(Fail::new("big-msk-codec", format!("{} rights decoded", wm.rights.len())));
     }
